@@ -312,6 +312,41 @@ directive kind).  The order in which files arrive at the builder is an arbitrary
 the oracle `arrival` below.  Any error (unreadable file, syntax error, include cycle, model error)
 makes the command fail. -/
 
+/-! ### the fan-in protocol
+
+`pending` goroutines (one per file still to be delivered) each push one value into the single unbuffered
+channel; the consumer (`model.FromStream`'s `ForEach`, then `journal.FromModelStream`) receives as long as it
+is `draining`.  `journal.FromPath` runs its three workers in a pool *without* cancel-on-error, so a producer
+blocked in `Push` is released only by a receive, or by the cancellation of its own errgroup context when a
+*producer* failed (`cancelled`).  That the consumer keeps draining until the channel is closed — also after one
+of its own conversions failed — is what makes the loader terminate (`C19_fan_progress`); a consumer that stops
+early leaves the producers blocked for ever (`C19_fan_stuck_without_drain`). -/
+
+structure Fan where
+  pending : Nat
+  delivered : Nat
+  draining : Bool
+  cancelled : Bool
+  deriving DecidableEq, Repr
+
+inductive FanLabel
+  | push      -- rendezvous: one producer hands its file over
+  | abandon   -- a producer's `Push` returns `ctx.Err()` (its errgroup context is cancelled)
+  | cancel    -- a producer failed: the errgroup cancels the producers' context
+  deriving DecidableEq, Repr
+
+/-- `producerFailed`: some parser goroutine returned an error -/
+def fanStep (producerFailed : Bool) (s : Fan) : FanLabel → Option Fan
+  | .push => if 0 < s.pending ∧ s.draining = true then some { s with pending := s.pending - 1, delivered := s.delivered + 1 } else none
+  | .abandon => if 0 < s.pending ∧ s.cancelled = true then some { s with pending := s.pending - 1 } else none
+  | .cancel => if producerFailed = true ∧ s.cancelled = false then some { s with cancelled := true } else none
+
+def Fan.finished (s : Fan) : Prop := s.pending = 0
+
+inductive FanRun (pf : Bool) : Fan → List FanLabel → Fan → Prop
+  | nil (s) : FanRun pf s [] s
+  | cons {s s' s'' : Fan} {ls} (l : FanLabel) : fanStep pf s l = some s' → FanRun pf s' ls s'' → FanRun pf s (l :: ls) s''
+
 inductive Kind | price | open_ | transaction | assertion | close
   deriving DecidableEq, Repr
 
